@@ -124,4 +124,5 @@ def r15_3(ctx):
 
 
 def run(ctx):
-    return r15_1(ctx) + r15_2(ctx) + r15_3(ctx)
+    from runner import collect
+    return collect(ctx, r15_1, r15_2, r15_3)
